@@ -521,6 +521,15 @@ theorem Frame.exec (F : Frame R) (E : Edits R)
   | startup => intro _ _ _ n y; exact F.ofData n _ _ (opStartup_cases n _)
   | reset => intro _ _ _ n y; exact F.ofData n _ _ (opReset_cases n _)
 
+/-- the ACL edit touches no node -/
+theorem rel_setBlock (hR : ∀ j a, R j a a) (n : Net) (x y : Nat) (on : Bool) : Net.Rel R n (opSetBlock n x y on).1 :=
+  ⟨rfl, fun j a h => ⟨a, h, hR j a⟩⟩
+
+@[simp] theorem setBlock_node (n : Net) (x y : Nat) (on : Bool) (j : Nat) : (opSetBlock n x y on).1.node j = n.node j := rfl
+@[simp] theorem setBlock_nextId (n : Net) (x y : Nat) (on : Bool) : (opSetBlock n x y on).1.nextId = n.nextId := rfl
+@[simp] theorem setBlock_time (n : Net) (x y : Nat) (on : Bool) : (opSetBlock n x y on).1.time = n.time := rfl
+@[simp] theorem setBlock_stuck (n : Net) (x y : Nat) (on : Bool) : (opSetBlock n x y on).1.stuck = n.stuck := rfl
+
 /-- every operation -/
 theorem Frame.step (F : Frame R) (E : Edits R)
     (hD : ∀ n y u, Net.Rel R n (opDisableUser n y u).1) (hL : ∀ n y u p, Net.Rel R n (localLogin n y u p).1)
@@ -533,6 +542,7 @@ theorem Frame.step (F : Frame R) (E : Edits R)
   | localLogin y u p => simp only [Primaite.Session.step]; rw [opLocalLogin_fst]; exact hL n y u p
   | localLogout y => exact F.localLogout n y
   | tick => exact F.tick n
+  | setBlock x y on => exact rel_setBlock F.refl n x y on
 
 /-- the common case: the relation tolerates `disabled := true` and a new local session unconditionally -/
 theorem Frame.step' (F : Frame R) (E : Edits R) (hD : ∀ j a u, R j a (a.setDisabled u)) (hL : ∀ j a l, R j a (a.setLoc l))
@@ -615,7 +625,9 @@ def KeepPath : Nat → Node → Node → Prop := fun _ a b => b.nic = a.nic ∧ 
 theorem keepPath_pre : Pre KeepPath :=
   { refl := fun _ _ => ⟨rfl, rfl⟩, trans := fun _ _ _ _ h1 h2 => ⟨h2.1.trans h1.1, h2.2.trans h1.2⟩ }
 
-theorem canDeliver_of_keepPath {n m : Net} (h : Net.Rel KeepPath n m) (x y : Nat) : canDeliver m x y = canDeliver n x y := by
+theorem canDeliver_of_keepPath {n m : Net} (h : Net.Rel KeepPath n m) (hbl : m.blocked = n.blocked) (hhp : m.hairpin = n.hairpin)
+    (x y : Nat) :
+    canDeliver m x y = canDeliver n x y := by
   unfold canDeliver
   cases hx : n.node x with
   | none => simp [h.none hx]
@@ -625,11 +637,11 @@ theorem canDeliver_of_keepPath {n m : Net} (h : Net.Rel KeepPath n m) (x y : Nat
     | none => simp [h.none hy, ha']
     | some b =>
       obtain ⟨b', hb', hbb⟩ := h.node y b hy
-      simp [ha', hb', haa.1, hbb.1, hbb.2]
+      simp [ha', hb', haa.1, hbb.1, hbb.2, Net.open, hbl, hhp]
 
 theorem canDeliver_afterLogin (n : Net) (x y : Nat) (u : String) (i j : Nat) :
     canDeliver (afterLogin n x y u) i j = canDeliver n i j :=
-  canDeliver_of_keepPath (keepPath_pre.afterLogin n x y u (fun _ _ => ⟨rfl, rfl⟩) (fun _ _ => ⟨rfl, rfl⟩)) i j
+  canDeliver_of_keepPath (keepPath_pre.afterLogin n x y u (fun _ _ => ⟨rfl, rfl⟩) (fun _ _ => ⟨rfl, rfl⟩)) rfl rfl i j
 
 
 theorem Net.Rel.back_of_len {n m : Net} (h : Net.Rel R n m) {j : Nat} {b : Node} (hb : m.node j = some b) :
